@@ -274,6 +274,34 @@ func c06Cases(c *Ctx, emit func(ocraVCase)) {
 	})
 }
 
+// c06RecutHistory: validation with one secret and suite; the base input with its own code, then a re-cut of it
+// (recutInputs) with the base's code (must be refused unless the codes happen to be equal) and its own, then the base again.
+func c06RecutHistory(c *Ctx) {
+	rng := c.RNG.Fork(613)
+	for rep := 0; rep < c.N(4, 40); rep++ {
+		for _, name := range recutSuites {
+			m, ok := ref.ParseSuiteName(name)
+			if !ok {
+				continue
+			}
+			key := rng.Bytes(20)
+			base := admissibleInput(rng, m, 35)
+			base.Challenge = rng.Bytes(12 + rng.Intn(60))
+			base.Session = rng.Bytes(1 + rng.Intn(60))
+			mk := func(in ref.Input, subs ...string) ocraVCase {
+				return ocraVCase{Base: ocraCase{KeyHex: hexs(key), Secret: ref.Base32EncodeNoPad(key), Via: viaRaw, Suite: ref.Suite{Raw: name}, Input: inputToJ(in), Note: "re-cut history"}, Submitted: hexAll(subs)}
+			}
+			baseCode := ref.OCRA(key, m, base)
+			for _, v := range recutInputs(m, base) {
+				judgeOCRAV(c, mk(base, baseCode))
+				judgeOCRAV(c, mk(v, baseCode, ref.OCRA(key, m, v)))
+				c.R.Count("recut_history_calls", 2)
+			}
+			judgeOCRAV(c, mk(base, baseCode))
+		}
+	}
+}
+
 func safeModel(m ref.Suite) ref.Suite {
 	if !ref.SuiteUsable(m) {
 		return ref.Suite{Hash: 0, Digits: 6, C: true}
@@ -290,12 +318,13 @@ func safeInput(m ref.Suite, in ref.Input) ref.Input {
 func init() {
 	register(&Prop{
 		ID: "C06",
-		Rule: "for the C05 suite/input population plus derived failure cases (undecodable secret, each way a suite is unusable, each way an input is inadmissible): GenerateOCRA is run, then ValidateOCRA on the generated code, its single-character edits, truncations/extensions, padded variants, reference codes of a neighbouring counter/challenge/timestamp/sibling suite, '', zeros and random bytes; verdict must equal (submitted == generated), or (false, error) whenever generation fails; " +
+		Rule: "for the C05 suite/input population plus derived failure cases (undecodable secret, each way a suite is unusable, each way an input is inadmissible): GenerateOCRA is run, then ValidateOCRA on the generated code, its single-character edits, truncations/extensions, padded variants, reference codes of a neighbouring counter/challenge/timestamp/sibling suite, '', zeros and random bytes; verdict must equal (submitted == generated), or (false, error) whenever generation fails; a one-goroutine history per suite with challenge and session: the base input, then inputs whose unpadded concatenation is the same byte string cut at other field boundaries, each with the base's code and its own (observed.recut_history_calls); " +
 			"distinct_nontrivial counts distinct (case, submitted) pairs where the submitted string is the generated code or has its length, plus distinct (failing case, submitted) pairs",
 		Run: func(c *Ctx) {
 			b := newBatcher(c, judgeOCRAV, 0)
 			c06Cases(c, b.add)
 			b.flush()
+			c06RecutHistory(c)
 		},
 		Replay: func(c *Ctx, kind string, raw json.RawMessage) error {
 			return replayAs(raw, func(k ocraVCase) { judgeOCRAV(c, k) })
